@@ -77,6 +77,12 @@ func genC11(x *Ctx) *c11Scen {
 				sp.Routes = append(sp.Routes, RouteSpec{ID: rid, Method: r.Method, Path: r.Path, Produces: []string{"application/xml"}})
 			}
 		})
+		if r0 := sp.Routes[0]; !strings.Contains(sp.Root, "{") && len(sp.Root) > 1 && r0.Path != "" && !strings.HasSuffix(r0.Path, "/") && tp.Chance(40) {
+			// a second route whose relative path spells out the first one's full path (/a/x below root /a):
+			// two routes that share nothing but that spelling
+			rid++
+			sp.Routes = append(sp.Routes, RouteSpec{ID: rid, Method: r0.Method, Path: strings.TrimRight(sp.Root, "/") + r0.Path})
+		}
 		sp.Repath = tp.Chance(150)
 		sc.Svcs = append(sc.Svcs, sp)
 	})
